@@ -428,6 +428,21 @@ def loopio(r):
     return s
 
 
+def mulcounter(r):
+    """loops whose own condition cell is updated multiplicatively (x := k*x + c, k != 1, through a
+    scratch cell), started from a constant or an input, with or without output in the body, followed
+    by code whose reachability depends on whether that loop ends: trip-count analysis must not treat
+    the update as an additive step"""
+    k = r.choice([2, 2, 3, 3, 4, 5])
+    c = r.choice([-1, -1, -2, -3, 1, 2, -k, 0])
+    init = r.choice(['+', '+', '++', '+++', ',', ','])
+    upd = '>[-]<[->' + '+' * k + '<]>[-<+>]<' + ('+' * c if c >= 0 else '-' * (-c))
+    pre = r.choice(['', '', '.', '>>+<<', '>>>+.<<<'])
+    body = pre + upd if r.below(3) else upd + pre
+    tail = r.choice(['+++.', '.', '>>-[.]++.', '>>.<<.', '>>[.-]<<+.', ''])
+    return init + '[' + body + ']' + tail
+
+
 def tailloop(r):
     """the program's last byte is the `]` of a counted loop that does I/O (nested or not, the counter a
     constant or an input): a budget that runs out exactly at the final branch leaves the program
@@ -465,7 +480,7 @@ def shiftif(r):
     return s
 
 
-GENS = {"tailloop": tailloop, "loopio": loopio, "shiftif": shiftif, "ifnest": ifnest, "uniform": uniform, "nestuse": nestuse, "longrun": longrun, "iopressure": iopressure, "squares": squares, "macro": macro, "pressure": pressure, "affine": affine, "bigconst": bigconst,
+GENS = {"mulcounter": mulcounter, "tailloop": tailloop, "loopio": loopio, "shiftif": shiftif, "ifnest": ifnest, "uniform": uniform, "nestuse": nestuse, "longrun": longrun, "iopressure": iopressure, "squares": squares, "macro": macro, "pressure": pressure, "affine": affine, "bigconst": bigconst,
         "roam": roam, "diverge": diverge}
 
 
